@@ -45,6 +45,7 @@ type zzSess struct {
 }
 
 var zzPauseTicks int
+var zzPauseKind int
 
 type zzSessToClient struct{ s *zzSess } // the server's writer
 type zzSessToServer struct{ s *zzSess } // the wrapper's remote-side writer
@@ -63,6 +64,9 @@ func (s *zzSess) fire() {
 		s.V.stopTransferringFiles(false)
 	case zzEvPauseClient:
 		if t := s.f.transfer.Load(); t != nil {
+			if zzPauseKind == 3 {
+				verifAdvanceMs(500) // the line has been idle for half a second when the user pauses
+			}
 			t.pauseTransferringFiles()
 			s.paused = t
 			s.everPaused = true
@@ -286,6 +290,10 @@ func zzRunSession(upload bool, event, maxAt int, timeout int) (*zzSess, *zzSessR
 				verifAdvanceTime() // a pause at least as long as the timeout
 				verifQuiesce()
 			}
+			if zzPauseKind == 3 {
+				verifAdvanceMs(800) // shorter than the one-second timeout, but reads that were already waiting time out in it
+				verifQuiesce()
+			}
 			s.paused.resumeTransferringFiles() // the user chose "continue"
 			resumed = true
 			verifQuiesce()
@@ -297,7 +305,11 @@ func zzRunSession(upload bool, event, maxAt int, timeout int) (*zzSess, *zzSessR
 	}
 	resumeIfPaused()
 	for i := 0; i < verifBound("TICKS") && !(res.serverDone && s.f.transfer.Load() == nil); i++ {
-		verifAdvanceTime()
+		if event == zzEvPauseClient && zzPauseKind == 3 {
+			verifAdvanceMs(120) // time passes in small steps: sleepers wake, no fresh time-out runs out
+		} else {
+			verifAdvanceTime()
+		}
 		verifQuiesce()
 		resumeIfPaused()
 	}
@@ -438,13 +450,19 @@ func zzH_C18_session() {
 	upload := verifNondetBool()
 	// three kinds of pause: (a) no time passes at all, (b) ten seconds pass with time-outs disabled (-t 0) — both are
 	// "shorter than the timeout" —, (c) ten seconds pass with a one-second timeout
-	kind := verifNondetRange(0, 2)
+	// a fourth kind, run separately (bound KIND=3): the line idle for 0.5 s, a pause of 0.8 s with a one-second timeout —
+	// shorter than the timeout, yet reads that were already waiting run out of time inside it (timers with real deadlines)
+	kind := verifBoundOr("KIND", -1)
+	if kind < 0 {
+		kind = verifNondetRange(0, 2)
+	}
 	timeout := 0
 	zzPauseTicks = 0
-	if kind >= 1 {
+	zzPauseKind = kind
+	if kind == 1 || kind == 2 {
 		zzPauseTicks = 1
 	}
-	if kind == 2 {
+	if kind >= 2 {
 		timeout = 1
 	}
 	s, res := zzRunSession(upload, zzEvPauseClient, verifBound("MSGS"), timeout)
